@@ -20,7 +20,8 @@ typedef struct { uintptr_t key; unsigned short fib; unsigned char shared; } ShEn
 static ShEnt g_sh[1 << SH_BITS];
 static unsigned char g_page_budget[1 << 14];
 extern uint64_t g_accesses_preempted;
-void tsan_shared_reset(void) { __builtin_memset(g_sh, 0, sizeof g_sh); __builtin_memset(g_page_budget, 0, sizeof g_page_budget); }
+void tsan_sb_reset(void);
+void tsan_shared_reset(void) { __builtin_memset(g_sh, 0, sizeof g_sh); __builtin_memset(g_page_budget, 0, sizeof g_page_budget); tsan_sb_reset(); }
 static inline void shared_access(void *a)
 {
     uintptr_t key = (uintptr_t)a >> 3;
@@ -34,7 +35,9 @@ static inline void shared_access(void *a)
         if (*b < 6) { uint64_t before = g_accesses_preempted; simomp_preempt_now(); if (g_accesses_preempted != before) (*b)++; }
     }
 }
-#define ACC(name) void name(void *a) { HIT(); if (W.p_shared) shared_access(a); }
+static void sb_plain_access(void *a);
+static int g_sb_total;
+#define ACC(name) void name(void *a) { HIT(); if (g_sb_total) sb_plain_access(a); if (W.p_shared) shared_access(a); }
 
 void __tsan_init(void) { }
 void __tsan_func_entry(void *pc) { (void)pc; }
@@ -51,26 +54,108 @@ void __tsan_read_range(void *a, size_t n) { (void)a; (void)n; HIT(); }
 void __tsan_write_range(void *a, size_t n) { (void)a; (void)n; HIT(); }
 void __tsan_ignore_thread_begin(void) { }
 void __tsan_ignore_thread_end(void) { }
-/* atomics are not used by kalign; if a change introduces them the link fails loudly in this
-   variant only, and the orchestrator reports the variant as unavailable (never a VIOLATION). */
-
-/* C11 atomics / omp atomic lowered to builtins: executed as plain operations (one virtual thread runs
-   at a time) and counted as potential preemption points like any other access. */
+/* ---------------------------------------------------------------------------------------------
+ * Atomics (C11 atomics, `omp atomic` lowered to builtins).  The compiler turns them into calls, so
+ * the simulator owns their effect.  Default: executed in program order (sequential consistency),
+ * counted as preemption points like any other access.
+ *
+ * With W.p_sb > 0 the x86-TSO relaxation is modelled for them: a store that is not seq_cst may sit
+ * in the issuing virtual thread's FIFO store buffer; the thread's own loads see it (store
+ * forwarding), other threads read memory.  The buffer drains
+ *   - completely at every locked operation (RMW, compare-exchange, seq_cst store, seq_cst fence),
+ *   - completely at every OpenMP construct that implies a flush (task creation/completion, taskwait,
+ *     taskgroup end, barrier, critical, parallel begin/end) - tsan_sb_sync(), called by simomp,
+ *   - completely or not at all (seeded decision) when the thread is switched away from,
+ *   - completely when the same thread touches one of the buffered locations with a plain access.
+ * This is what makes a Dekker-style "store my flag, load yours" handshake with relaxed atomics fail:
+ * both sides can read 0.  Plain (non-atomic) stores are executed by the compiled code itself and
+ * cannot be delayed; weaker architectures than x86 are not modelled. */
 #include <stdint.h>
 typedef int morder;
+#define SB_MAX 16
+typedef struct { volatile void *a; uint64_t v; unsigned char n; } SbEnt;
+typedef struct { int owner; int len; SbEnt e[SB_MAX]; } Sb;
+#define SB_SLOTS 256
+static Sb g_sb[SB_SLOTS];                /* g_sb_total (declared above): entries over all buffers, fast path when 0 */
+
+static Sb *sb_of(int fib, int create)
+{
+    unsigned h = (unsigned)fib % SB_SLOTS;
+    for (unsigned k = 0; k < SB_SLOTS; k++) {
+        Sb *b = &g_sb[(h + k) % SB_SLOTS];
+        if (b->owner == fib + 1) return b;
+        if (!b->owner || !b->len) { if (!create) return NULL; b->owner = fib + 1; b->len = 0; return b; }
+    }
+    return NULL;
+}
+static void sb_commit(SbEnt *e)
+{
+    switch (e->n) {
+    case 1: *(volatile uint8_t *)e->a = (uint8_t)e->v; break;
+    case 2: *(volatile uint16_t *)e->a = (uint16_t)e->v; break;
+    case 4: *(volatile uint32_t *)e->a = (uint32_t)e->v; break;
+    default: *(volatile uint64_t *)e->a = e->v; break;
+    }
+}
+static void sb_flush(Sb *b)
+{
+    if (!b) return;
+    for (int i = 0; i < b->len; i++) sb_commit(&b->e[i]);
+    g_sb_total -= b->len; b->len = 0;
+}
+static void sb_flush_cur(void) { if (g_sb_total) sb_flush(sb_of(g_cur_fiber_id, 0)); }
+void tsan_sb_reset(void) { __builtin_memset(g_sb, 0, sizeof g_sb); g_sb_total = 0; }
+void tsan_sb_sync(void) { sb_flush_cur(); }
+void tsan_sb_on_switch(void)
+{
+    if (!g_sb_total) return;
+    Sb *b = sb_of(g_cur_fiber_id, 0);
+    if (b && b->len && sim_decide(DK_SBDRAIN, 2, 0x8000u)) sb_flush(b);
+}
+void tsan_sb_fiber_exit(void) { sb_flush_cur(); }
+/* a plain access of the owning thread to a buffered location: make it see its own store */
+static void sb_plain_access(void *a)
+{
+    Sb *b = sb_of(g_cur_fiber_id, 0);
+    if (!b) return;
+    for (int i = 0; i < b->len; i++)
+        if ((uintptr_t)a >= (uintptr_t)b->e[i].a - 15 && (uintptr_t)a < (uintptr_t)b->e[i].a + b->e[i].n) { sb_flush(b); return; }
+}
+static int sb_lookup(const volatile void *a, int n, uint64_t *out)
+{
+    Sb *b = g_sb_total ? sb_of(g_cur_fiber_id, 0) : NULL;
+    if (b) for (int i = b->len - 1; i >= 0; i--) if (b->e[i].a == a && b->e[i].n == n) { *out = b->e[i].v; return 1; }
+    if (g_sb_total) {
+        /* reach probe: some other virtual thread holds a newer value for this location */
+        for (unsigned k = 0; k < SB_SLOTS; k++) { Sb *o = &g_sb[k]; if (o != b) for (int i = 0; i < o->len; i++) if (o->e[i].a == a) { g_probe[PR_SB_STALE_READS]++; k = SB_SLOTS; break; } }
+    }
+    return 0;
+}
+static int sb_store(volatile void *a, int n, uint64_t v, morder mo)
+{
+    if (!W.p_sb || mo == 5 /* seq_cst */ || !simomp_in_parallel_work()) return 0;
+    if (!sim_decide(DK_SBUF, 2, W.p_sb)) return 0;
+    Sb *b = sb_of(g_cur_fiber_id, 1);
+    if (!b) return 0;
+    if (b->len == SB_MAX) { sb_commit(&b->e[0]); __builtin_memmove(&b->e[0], &b->e[1], sizeof(SbEnt) * (SB_MAX - 1)); b->len--; g_sb_total--; }
+    b->e[b->len].a = a; b->e[b->len].n = (unsigned char)n; b->e[b->len].v = v; b->len++; g_sb_total++;
+    g_probe[PR_SB_BUFFERED]++;
+    simomp_preempt_after_buffered_store();
+    return 1;
+}
 #define ATOMICS(N, T) \
-    T __tsan_atomic##N##_load(const volatile T *a, morder mo) { (void)mo; HIT(); return *a; } \
-    void __tsan_atomic##N##_store(volatile T *a, T v, morder mo) { (void)mo; HIT(); *a = v; } \
-    T __tsan_atomic##N##_exchange(volatile T *a, T v, morder mo) { (void)mo; HIT(); T o = *a; *a = v; return o; } \
-    T __tsan_atomic##N##_fetch_add(volatile T *a, T v, morder mo) { (void)mo; HIT(); T o = *a; *a = (T)(o + v); return o; } \
-    T __tsan_atomic##N##_fetch_sub(volatile T *a, T v, morder mo) { (void)mo; HIT(); T o = *a; *a = (T)(o - v); return o; } \
-    T __tsan_atomic##N##_fetch_and(volatile T *a, T v, morder mo) { (void)mo; HIT(); T o = *a; *a = (T)(o & v); return o; } \
-    T __tsan_atomic##N##_fetch_or(volatile T *a, T v, morder mo) { (void)mo; HIT(); T o = *a; *a = (T)(o | v); return o; } \
-    T __tsan_atomic##N##_fetch_xor(volatile T *a, T v, morder mo) { (void)mo; HIT(); T o = *a; *a = (T)(o ^ v); return o; } \
-    T __tsan_atomic##N##_fetch_nand(volatile T *a, T v, morder mo) { (void)mo; HIT(); T o = *a; *a = (T)~(o & v); return o; } \
-    int __tsan_atomic##N##_compare_exchange_strong(volatile T *a, T *c, T v, morder mo, morder fmo) { (void)mo; (void)fmo; HIT(); if (*a == *c) { *a = v; return 1; } *c = *a; return 0; } \
-    int __tsan_atomic##N##_compare_exchange_weak(volatile T *a, T *c, T v, morder mo, morder fmo) { (void)mo; (void)fmo; HIT(); if (*a == *c) { *a = v; return 1; } *c = *a; return 0; } \
-    T __tsan_atomic##N##_compare_exchange_val(volatile T *a, T c, T v, morder mo, morder fmo) { (void)mo; (void)fmo; HIT(); T o = *a; if (o == c) *a = v; return o; }
+    T __tsan_atomic##N##_load(const volatile T *a, morder mo) { (void)mo; HIT(); uint64_t v; if (sb_lookup(a, N / 8, &v)) return (T)v; return *a; } \
+    void __tsan_atomic##N##_store(volatile T *a, T v, morder mo) { HIT(); if (sb_store(a, N / 8, (uint64_t)v, mo)) return; sb_flush_cur(); *a = v; } \
+    T __tsan_atomic##N##_exchange(volatile T *a, T v, morder mo) { (void)mo; HIT(); sb_flush_cur(); T o = *a; *a = v; return o; } \
+    T __tsan_atomic##N##_fetch_add(volatile T *a, T v, morder mo) { (void)mo; HIT(); sb_flush_cur(); T o = *a; *a = (T)(o + v); return o; } \
+    T __tsan_atomic##N##_fetch_sub(volatile T *a, T v, morder mo) { (void)mo; HIT(); sb_flush_cur(); T o = *a; *a = (T)(o - v); return o; } \
+    T __tsan_atomic##N##_fetch_and(volatile T *a, T v, morder mo) { (void)mo; HIT(); sb_flush_cur(); T o = *a; *a = (T)(o & v); return o; } \
+    T __tsan_atomic##N##_fetch_or(volatile T *a, T v, morder mo) { (void)mo; HIT(); sb_flush_cur(); T o = *a; *a = (T)(o | v); return o; } \
+    T __tsan_atomic##N##_fetch_xor(volatile T *a, T v, morder mo) { (void)mo; HIT(); sb_flush_cur(); T o = *a; *a = (T)(o ^ v); return o; } \
+    T __tsan_atomic##N##_fetch_nand(volatile T *a, T v, morder mo) { (void)mo; HIT(); sb_flush_cur(); T o = *a; *a = (T)~(o & v); return o; } \
+    int __tsan_atomic##N##_compare_exchange_strong(volatile T *a, T *c, T v, morder mo, morder fmo) { (void)mo; (void)fmo; HIT(); sb_flush_cur(); if (*a == *c) { *a = v; return 1; } *c = *a; return 0; } \
+    int __tsan_atomic##N##_compare_exchange_weak(volatile T *a, T *c, T v, morder mo, morder fmo) { (void)mo; (void)fmo; HIT(); sb_flush_cur(); if (*a == *c) { *a = v; return 1; } *c = *a; return 0; } \
+    T __tsan_atomic##N##_compare_exchange_val(volatile T *a, T c, T v, morder mo, morder fmo) { (void)mo; (void)fmo; HIT(); sb_flush_cur(); T o = *a; if (o == c) *a = v; return o; }
 ATOMICS(8, uint8_t) ATOMICS(16, uint16_t) ATOMICS(32, uint32_t) ATOMICS(64, uint64_t)
-void __tsan_atomic_thread_fence(morder mo) { (void)mo; }
+void __tsan_atomic_thread_fence(morder mo) { if (mo == 5) sb_flush_cur(); }
 void __tsan_atomic_signal_fence(morder mo) { (void)mo; }
